@@ -760,7 +760,7 @@ class SSHChannel(Generic[AnyStr], SSHPacketHandler):
 
         self.logger.info('Aborting channel')
 
-        if self._send_state not in {'close_pending', 'closed'}:
+        if self._send_state != 'closed':
             # Send an immediate close, discarding unsent data
             self._close_send()
 
